@@ -8,6 +8,8 @@
 -/
 import ProphyModel.Properties.Tables
 import ProphyModel.Lemmas.Scalars
+import ProphyModel.Lemmas.PyRoundTrip
+import ProphyModel.Properties.C01
 namespace Prophy.C02
 open Prophy
 
@@ -18,5 +20,35 @@ theorem C02_scalar_roundtrip (e : Endian) (p : Prim) (i : Int) (pre post bs : By
     (h : Py.pack e p i = .ok bs) (hf : p.isFloat = false) :
     Py.decScalar e p (pre ++ bs ++ post) pre.length = .ok (i, p.size) :=
   Py.decScalar_pack e p i pre post bs h hf
+
+/-- FULL STATEMENT: for every schema prophyc accepts and the runtime imports, every value of the
+    type whose arrays sharing a counter agree, whose greedy tail (if any) ends on the alignment
+    boundary (`Spec.galTy`: the documented exception) and whose counters respect the decoder's
+    guard (`WF.guardTy`: beyond it is known finding D49), in both byte orders: decoding the
+    canonical encoding succeeds, yields field for field the same value and reports exactly the
+    length of the input. -/
+theorem C02_py_decode_encode (t : Ty) (v : Val) (e : Endian)
+    (hf : Accept.front t = true) (hp : Accept.pyRt t = true)
+    (hv : hasType t v = true) (ha : WF.agreeTy t v = true)
+    (hg : Spec.galTy t v = true) (hG : WF.guardTy t v = true) :
+    Py.decode t (Spec.enc t v e) e = .ok (v, (Spec.enc t v e).length) :=
+  Py.decode_encode t v e hf hp hv ha hg hG
+
+/-- the same through the model of the codec on both sides: decode (encode v) = v, and re-encoding
+    the decoded value reproduces the bytes -/
+theorem C02_py_roundtrip (t : Ty) (v : Val) (e : Endian) (b : Bytes)
+    (hf : Accept.front t = true) (hp : Accept.pyRt t = true)
+    (hv : hasType t v = true) (ha : WF.agreeTy t v = true)
+    (hg : Spec.galTy t v = true) (hG : WF.guardTy t v = true)
+    (he : Py.encode t v e = .ok b) :
+    Py.decode t b e = .ok (v, b.length) ∧ Py.encode t v e = .ok b := by
+  have hc := Py.encode_canonical t v e (Accept.wf_of_accept t hf hp) hv ha
+  rw [hc] at he; injection he with he; subst he
+  exact ⟨Py.decode_encode t v e hf hp hv ha hg hG, hc⟩
+
+/-- non-vacuity: the example of C01 (shared shifted counter, nested dynamic struct, optional,
+    limited array, union) satisfies every hypothesis -/
+example : Accept.front C01.exT = true ∧ Accept.pyRt C01.exT = true ∧ hasType C01.exT C01.exV = true ∧
+    WF.agreeTy C01.exT C01.exV = true ∧ Spec.galTy C01.exT C01.exV = true ∧ WF.guardTy C01.exT C01.exV = true := by decide
 
 end Prophy.C02
